@@ -90,7 +90,14 @@ def ref_int(text, default):
         return default
 
 
+def convertible(tp):
+    """the metric types are an OPEN enum: a number outside COUNTER..SUMMARY cannot be converted by this version"""
+    return all(0 <= m['type'] <= 3 for m in tp['metrics'])
+
+
 def spec_location(tp):
+    if not convertible(tp):
+        return None                  # a tracepoint the agent cannot convert is installed nowhere (and costs only itself)
     a = tp['args']
     stage = a.get('stage')
     if stage is None:
@@ -676,6 +683,8 @@ def compare(case, obs, resp):
             return [f'custom list per phase: implementation {json.dumps(got, sort_keys=True)[:500]} model '
                     f'{json.dumps(resp["phases"], sort_keys=True)[:500]}']
         return []
+    if resp.get('lost'):
+        return ['model: the whole response is lost; implementation converted it']
     if obs['triggers'] != resp['triggers']:
         return [f'triggers: implementation {json.dumps(obs["triggers"], sort_keys=True)[:500]} model '
                 f'{json.dumps(resp["triggers"], sort_keys=True)[:500]}']
@@ -787,6 +796,13 @@ def gen_list(rng, kind):
         tps.append(tp)
         conds.append(c)
     extra = None
+    open_enum = []
+    for i, tp in enumerate(tps):
+        if rng.random() < 0.15:          # a metric whose type this version does not know (proto3 enums are open)
+            if not tp['metrics']:
+                tp['metrics'].append(gen_metric(rng, 'm_%d_x' % i))
+            rng.choice(tp['metrics'])['type'] = rng.choice([4, 5, 7, 9])
+            open_enum.append(i)
     if kind == 'register' and rng.random() < 0.6:
         # some tracepoints come from the service, registrations are unregistered one by one (never the same twice)
         service = [i for i in range(n) if rng.random() < 0.2]
@@ -797,6 +813,12 @@ def gen_list(rng, kind):
                 tp['args']['fire_count'] = '-1'
                 tp['args']['fire_period'] = '0'
         extra = {'service': service, 'unregs': unregs}
+    if kind == 'register':
+        # registrations in code hand over MetricDefinition objects (no protobuf enum involved): known types only
+        for i in open_enum:
+            if extra is None or i not in extra['service']:
+                for m in tps[i]['metrics']:
+                    m['type'] %= 4
     return finish_case(rng, kind, tps, conds, extra)
 
 
@@ -849,6 +871,7 @@ def corpus():
     rng = random.Random(11)
     good = _tp(0, 'host.py', 7, {})
     bad = _tp(1, 'other.py', 1, {'stage': 'bogus'})
+    odd_metric = _tp(2, 'host.py', 12, {}, [], [dict(ONE_METRIC[0], name='m_2_0', type=7)])
     two = [_tp(0, 'host.py', 7, {'fire_count': '2', 'fire_period': '0'}, ['x']),
            _tp(1, 'host.py', 7, {'snapshot': 'no_collect', 'log_msg': 'x={x}', 'condition': 'c1'}, [], ONE_METRIC and [
                dict(ONE_METRIC[0], name='m_1_0')]),
@@ -857,6 +880,9 @@ def corpus():
         # D14 and its code-path sibling (probe notes/probes/p_c11_custom_none.py): the uninterpretable one is alone
         finish_case(rng, 'response', [good, bad], [None, None]),
         finish_case(rng, 'response', [bad, good], [None, None]),
+        # a metric type this version does not know: that tracepoint cannot be converted, the others are installed
+        finish_case(rng, 'response', [odd_metric, good], [None, None]),
+        finish_case(rng, 'response', [good, odd_metric, bad], [None, None, None]),
         finish_case(rng, 'register', [good, bad], [None, None]),
         finish_case(rng, 'register', [bad, good], [None, None]),
         finish_case(rng, 'response', two, [None, 'true', 'false']),
@@ -882,6 +908,8 @@ def label(case, obs):
         return 'build/' + ('none' if obs.get('trigger') is None else obs['trigger']['loc']['kind'])
     specs = [spec_trigger(tp) for tp in case['tps']]
     unint = any(s is None for s in specs)
+    if any(not convertible(tp) for tp in case['tps']):
+        k += '/open-enum-metric'
     if any(s is not None and s['loc']['kind'] == 'method' and s['loc']['name'] is None for s in specs):
         k += '/nameless-method'
     ids = [s['id'] for s in specs if s is not None]
